@@ -780,8 +780,8 @@ Proof.
   intros f o parent c Hwf Hc Hg.
   pose proof (bind_demote_same _ _ Hg) as E.
   unfold call_fn. destruct (bind (f_sig f) c) as [b|] eqn:B.
-  - rewrite (wrapper_accepted f o parent c b); auto. cbn [fst]. now destruct (f_body f b).
-  - now rewrite wrapper_rejected.
+  - rewrite (wrapper_accepted f o parent c b Hwf Hc E). cbn [fst]. now destruct (f_body f b).
+  - now rewrite (wrapper_rejected f o parent c E).
 Qed.
 
 Lemma logged_args_spec o b k :
@@ -862,7 +862,7 @@ Theorem C18_logged_thm : forall (f : fn) (o : opts) (parent : option (list posit
 Proof.
   intros f o parent c b Hwf Hc Hg B t lvl.
   pose proof (bind_demote_same _ _ Hg) as E. rewrite B in E.
-  rewrite (wrapper_accepted f o parent c b); auto. cbn [snd].
+  rewrite (wrapper_accepted f o parent c b Hwf Hc E). cbn [snd].
   eexists. eexists. split; [reflexivity|]. split.
   - intros k. rewrite start_message_spec. fold t. fold lvl.
     repeat (destruct (Pos.eqb k _); [reflexivity|]).
@@ -942,7 +942,6 @@ Theorem C18_param_call_refuted_thm :
 Proof.
   exists (const_fn [mkParam N_underscore_call KNormal None] 7%Z), default_opts, (mkCall [3%Z] []).
   repeat split; try (vm_compute; reflexivity).
-  intros k [].
 Qed.
 
 (* ------------------------------------------------------------------ *)
